@@ -93,7 +93,7 @@ pub fn rule_names(rng: &mut Rng, n: usize) -> Vec<String> {
     out
 }
 
-pub fn generate(seed: u64) -> Scenario {
+pub fn generate(seed: u64, thorough: bool) -> Scenario {
     let mut rng = Rng::new(seed);
     let mut scn = Scenario::new("C05");
     let (input, refs) = standard_input(&mut rng);
@@ -102,6 +102,12 @@ pub fn generate(seed: u64) -> Scenario {
     scn.symbols = standard_symbols(&mut rng);
     let syms = scn.symbols.iter().map(|(k, v)| (k.clone(), crate::gen::ty_of(v))).collect();
     let mut cfg = GenCfg::swarm(&mut rng);
+    if thorough && rng.chance(1, 3) {
+        // deeper and larger trees in the thorough tier
+        cfg.max_depth += 1 + rng.below(2) as u32;
+        cfg.max_nodes = 60;
+        cfg.max_probes = 20;
+    }
     scn.text_build = rng.chance(1, 12);
     cfg.allow_in = scn.text_build;
     let nrules = 1 + rng.usize(3);
